@@ -347,14 +347,14 @@ Qed.
    every zero-filled extension, whichever of the two metadata records survived, and any
    data files: newTable's checkIndex + repairIndex leave exactly the index bytes below the
    flush offset, and the metadata record as found. *)
-Lemma crash_index_recovers_facts t c p data (cm : bool) :
+Lemma crash_index_recovers_full t c p data (cm : bool) :
   idx_facts t -> valid_cut (t_index t) c p ->
   let m := if cm then t_mcur t else t_msyn t in
   let u := open_repair_index (crash_file (t_index t) c p) data (Some m) in
   fbytes (t_index u) = firstn (N.to_nat (mflush (t_mcur t))) (fbytes (t_index t))
   /\ t_mcur u = mkMeta 2 (mvtail m) (mflush (t_mcur t))
   /\ t_msyn u = mkMeta 2 (mvtail m) (mflush (t_mcur t))
-  /\ t_data u = data.
+  /\ t_data u = data /\ t_open u = [].
 Proof.
   intros Hinv [Hc1 Hc2] m u.
   destruct Hinv as [es [Hb [Hne [Hwf [Hok [Hmod [H6 [Hdur [Hfw [Hsyn [Hv1 Hv2]]]]]]]]]]].
@@ -385,10 +385,23 @@ Proof.
     - rewrite firstn_length. rewrite Nat.min_l by (unfold flen in *; lia). reflexivity.
     - rewrite firstn_length. lia. }
   destruct HG as [G HG].
-  destruct (open_repair_index_prefix _ data m esF G HneF HwfF HokF HG) as [R1 [R2 [R3 [R4 _]]]].
+  destruct (open_repair_index_prefix _ data m esF G HneF HwfF HokF HG) as [R1 [R2 [R3 [R4 R5]]]].
   - rewrite HmF, HlF. exact HF.
   - exact Hmv.
-  - subst u. rewrite R1, R2, R3, R4, HmF, HPre. repeat split; reflexivity.
+  - subst u. rewrite R1, R2, R3, R4, R5, HmF, HPre. repeat split; reflexivity.
+Qed.
+
+Lemma crash_index_recovers_facts t c p data (cm : bool) :
+  idx_facts t -> valid_cut (t_index t) c p ->
+  let m := if cm then t_mcur t else t_msyn t in
+  let u := open_repair_index (crash_file (t_index t) c p) data (Some m) in
+  fbytes (t_index u) = firstn (N.to_nat (mflush (t_mcur t))) (fbytes (t_index t))
+  /\ t_mcur u = mkMeta 2 (mvtail m) (mflush (t_mcur t))
+  /\ t_msyn u = mkMeta 2 (mvtail m) (mflush (t_mcur t))
+  /\ t_data u = data.
+Proof.
+  intros H Hc m u. destruct (crash_index_recovers_full t c p data cm H Hc) as (A & B & C & D & _).
+  repeat split; assumption.
 Qed.
 
 Lemma crash_index_recovers t c p data (cm : bool) :
@@ -468,6 +481,7 @@ Lemma repair_loop_head_only fuel t last offsets csize f :
   exists t',
     repair_loop fuel t last offsets csize = Ok (t', last, offsets, eoff last) /\
     t_index t' = t_index t /\ t_mcur t' = t_mcur t /\ t_msyn t' = t_msyn t /\ t_open t' = t_open t /\
+    t_offset t' = t_offset t /\ t_hidden t' = t_hidden t /\ t_tail t' = t_tail t /\
     (csize = eoff last -> t' = t) /\
     (eoff last < csize -> t_data t' = dset (efile last) (f_trunc f (eoff last)) (t_data t)).
 Proof.
